@@ -74,7 +74,8 @@ def judge(n, info, acc, opts, step, res, labels=True):
             res.label("refused:" + (msg.split("\n")[0][:60]))
         return None
     exact, quadcon, pow_ok = quad_ok(acc, opts)
-    if info["nbprod"] and not exact:
+    announced = "PLApprox" in ((run.sol_text or "") + run.out + run.err)   # the driver itself says it approximated
+    if announced or (info["nbprod"] and not exact):
         res.label("approximated(not judged)")
         res.inconclusive += 1
         return None
